@@ -119,7 +119,9 @@ theorem indexes_and_keys_from_scripts (g : Globals) (hg : g.dialect = .mysql) (r
       ((Table.walkFk t true [] td.fks).filterMap fkStmt = Abs.Idx.emitKeep tbN.fks tbO.fks ∧
         ((∀ s ∈ tbN.fks, ∀ o ∈ tbO.fks, s.name = o.name → s = o) →
           ∃ R, Abs.Idx.execAll tbO.fks ((Table.walkFk t true [] td.fks).filterMap fkStmt) = some R ∧ R.Perm tbN.fks)) :=
-  elems_end_to_end g hg rc old new dbO dbN ho hn heo hen d hd t tbO tbN hfo hfn
+  by
+    obtain ⟨td, h1, h2, h3, h4, h5, _⟩ := elems_end_to_end g hg rc old new dbO dbN ho hn heo hen d hd t tbO tbN hfo hfn
+    exact ⟨td, h1, h2, h3, h4, h5⟩
 
 -- non-vacuity of `indexes_and_keys_from_scripts`: an index redefined under its name, one kept, one new, one dropped,
 -- a table-level primary key on one side; a foreign key added and one dropped
